@@ -15,13 +15,18 @@ VERIF = Path(__file__).resolve().parent.parent
 
 
 def one(d: Path) -> str:
+    import os
+
     tmp = regress.scratch(d / "patch.diff")
     try:
+        env = dict(os.environ, VERIF_REPO=str(tmp / "r"))
+        pr = subprocess.run(["/venv/bin/python", str(VERIF / "tools" / "fastcheck.py")], capture_output=True, text=True, env=env, cwd=str(VERIF))
+        data = json.loads(pr.stdout.strip().splitlines()[-1])
         now = {}
         for p in regress.PROPS:
-            rc, out = regress.run_check(p, str(tmp / "r"), str(tmp / "ev"))
-            if rc != 0:
-                now[p] = {"exit": rc, "rules": sorted(set(re.findall(r": (R\d+\.\d+) in ", out)))}
+            got = data[p]
+            if got[0] != 0:
+                now[p] = {"exit": got[0], "rules": got[2] if len(got) > 2 else []}  # noqa: PLR2004
         m = json.loads((d / "meta.json").read_text())
         m["reported_now"] = now
         (d / "meta.json").write_text(json.dumps(m, indent=1) + "\n")
@@ -34,7 +39,7 @@ def one(d: Path) -> str:
 
 
 dirs = [d for d in sorted((VERIF / "seeded").iterdir()) if (d / "patch.diff").exists()]
-with ThreadPoolExecutor(max_workers=8) as ex:
+with ThreadPoolExecutor(max_workers=14) as ex:
     for line in ex.map(one, dirs):
         print(line)
 subprocess.run(["/venv/bin/python", str(VERIF / "tools" / "gen_seeded_readme.py")])
